@@ -30,6 +30,18 @@ def c08_rt(tier, seed):
     return run_rt("c08_rt.py", "rt:c08", tier, seed, 1500, 60000)
 
 
+def xcheck(tier, seed):
+    """executor vs CPython on concrete inputs (T-engine mitigation): a mismatch is a checker crash, not a verdict"""
+    from pyvc import xcheck as xc
+
+    r = xc.run(seed, 120 if tier == "quick" else 3000)
+    out = {"summary": f"executor cross-check: {r['cases']} concrete executions of 5 real functions, pyvc interpreter vs CPython, mismatches={len(r['mismatches'])}", "violations": [], "undecided": [], "evaluations": r["cases"]}
+    out["bounded"] = {"checker": "pyvc/xcheck.py", "what": "pyvc interpreter (concrete mode) agrees with CPython", "cases": r["cases"], "label": "bounded, validates the engine, not the property"}
+    if r["mismatches"]:
+        out["undecided"].append("ENGINE MISMATCH (checker bug): " + repr(r["mismatches"][0]))
+    return out
+
+
 def c09_rt(tier, seed):
     from pyvc.rtcheck import run_rt
 
@@ -116,7 +128,7 @@ PROPS = {
     },
     "C04": {
         "modules": ["contracts.c04_permissions", "contracts.c02_paths", "contracts.server_units", "contracts.worker_units"],
-        "extra": ["contracts.index.c02_rt", "contracts.index.c04_rt"],
+        "extra": ["contracts.index.xcheck", "contracts.index.c02_rt", "contracts.index.c04_rt"],
         "level": "proof",
         "trusted_base": [T_PY, T_ENGINE, T_SOLVER, T_PATH, T_AIO, T_CONN],
         "assumptions": ["SEQ interference (one command at a time)", "the verb table (readers/modifiers) is taken from the property statement and checked against the executed decorator stacks"],
@@ -179,7 +191,7 @@ PROPS = {
     "C08": {
         "modules": ["contracts.c08_names", "contracts.c20_logs", "contracts.server_units"],
         "unit_filter": ["Server.parse_command", "BaseClient.parse_mlsx_line", "Server.build_mlsx_string", "Server.pwd#SEQ", "lemma:first-space-splits-facts-from-name"],
-        "extra": ["contracts.index.c08_rt"],
+        "extra": ["contracts.index.xcheck", "contracts.index.c08_rt"],
         "level": "proof",
         "trusted_base": [T_PY, T_ENGINE, T_SOLVER, T_PATH, "T-str / T-enc / T-time(strftime of an all-numeric format yields digits)"],
         "assumptions": ["carrier set Name of the property: non-empty text without '/', NUL, CR, LF, not '.'/'..', no trailing whitespace"],
@@ -206,7 +218,7 @@ PROPS = {
     },
     "C19": {
         "modules": ["contracts.c07_listing", "contracts.c06_framing", "contracts.c20_logs", "contracts.server_units", "contracts.dispatcher_units", "contracts.c19_malformed"],
-        "extra": ["contracts.index.c19_rt"],
+        "extra": ["contracts.index.xcheck", "contracts.index.c19_rt"],
         "unit_filter_prefix": ["BaseClient.parse_unix_mode", "BaseClient.parse_ls_date", "BaseClient.parse_list_line", "BaseClient.parse_line", "BaseClient.parse_response#any-stream", "Server.parse_command#", "Server.dispatcher/for-task-in-done", "Server.", "BaseClient.parse_epsv_response", "BaseClient.parse_pasv_response", "Client.list.<locals>.AsyncLister"],
         "level": "proof",
         "trusted_base": [T_PY, T_ENGINE, T_SOLVER, T_AIO, "exception tables of the Python primitives used by the parsers (s[i], d[k], str.index/rindex, int(), bytes.decode, strptime, datetime.replace, unpacking): DESIGN.md 2.5", "regular expressions of parse_epsv_response / parse_pasv_response as assumed contracts on their match groups"],
@@ -260,6 +272,7 @@ PROPS = {
     },
     "C06": {
         "modules": ["contracts.c06_framing"],
+        "extra": ["contracts.index.xcheck"],
         "level": "proof",
         "trusted_base": [T_PY, T_ENGINE, T_SOLVER, T_AIO, "T-str: axiom schemas for rstrip / isdigit (uninterpreted functions constrained by consequences of the CPython semantics; DESIGN.md 2.9, 2.12)", "T-enc: encode/decode inverse and stateless"],
         "assumptions": ["carrier set of the round trip: reply lines without trailing whitespace (the property's own carrier: the client rstrips every line)", "segmentation independence is T-aio's readline contract"],
@@ -268,6 +281,7 @@ PROPS = {
     },
     "C10": {
         "modules": ["contracts.c10_limits", "contracts.server_units", "contracts.c03_auth", "contracts.dispatcher_units"],
+        "extra": ["contracts.index.xcheck"],
         "level": "proof",
         "trusted_base": [T_PY, T_ENGINE, T_SOLVER, T_AIO, T_CONN, T_IND],
         "assumptions": [],
